@@ -38,6 +38,8 @@ import EinoV.Spec.C08Close
 import EinoV.Proofs.C08Tree.ClosePropagate
 import EinoV.Proofs.C08Tree.Progress
 import EinoV.Proofs.C08Tree.Prefix
+import EinoV.Model.C08Late
+import EinoV.Proofs.C08Late
 
 namespace EinoV.C08
 open EinoV.Gen
@@ -658,6 +660,88 @@ example : ∃ net, Behaves factsGen 60 {}
     exact ⟨n, hb, allSendClosedB_spec h.1.1.1, noSkipB_spec h.1.1.2, by simpa using h.1.2, by simpa using h.2⟩
   · cases h
 
+/-! ## a reader with history handed to a new consumer (family `late`)
+
+  A reader may be passed to `MergeStreamReaders` / `StreamReaderWithConvert` / `Copy` at any
+  moment of its life.  For the network model this is part of `tree_delivery` (the constructors of
+  a schedule may come at any point, and `Den` of a copy starts at its cursor: `Den.childOpen`).
+  The theorems of this section state it for the component that carries the history — the `Copy`
+  cell — in terms of the source sequence, and tie it to the way `MergeStreamReaders` takes a copy
+  (source facts `mergeTakes`, `mergeChildViaToStream`, `childRecvIsOwnPeek`, `mergeArrayFromIndex`). -/
+
+/-- the hand-over facts as extracted from the source: a copy given to `MergeStreamReaders` is read
+    by a forwarding goroutine (`sr.csr.toStream()`) whose loop calls `csr.recv`, which is
+    `csr.parent.peek(csr.index)` -/
+def lateFactsGen : LateFacts :=
+  { childViaRecv := FactsC08.mergeChildViaToStream && FactsC08.childRecvIsOwnPeek &&
+      FactsC08.childForwarderClosesSource,
+    arrayFromIndex := FactsC08.mergeArrayFromIndex }
+
+/-- The regenerated hand-over facts are the expected ones; in particular every clause of the
+    `switch sr.typ` of `MergeStreamReaders` is the single statement expected for its reader type
+    (`mergeTakes`: pipe ↦ its channel, array ↦ `arr[index:]`, merged ↦ its sources, convert and
+    copy ↦ their own `toStream()`). -/
+theorem late_facts_match :
+    lateFactsGen = Expected.C08.lateFacts ∧ FactsC08.mergeTakes = Expected.C08.mergeTakes := by
+  decide
+
+/-- **late_handover_delivers_whole_source.** `n ≥ 1` copies of a source that delivers `l`; ANY
+    interleaving `evs` of `Recv`s and `Close`s of the copies (siblings reading ahead — pulling items
+    out of the source into the shared list —, lagging behind, being closed after reading or unread);
+    then copy `i`, still open, is handed to `MergeStreamReaders`.  What the merged reader gets from
+    it (`takeOver`: the forwarding goroutine reading the copy to the end) is exactly what copy `i`
+    was still owed — the items waiting for it in the shared list followed by what the source still
+    holds — so that what `i` received before the hand-over followed by what is delivered after it
+    is the whole sequence `l`: nothing that a sibling had read ahead is lost, whether that sibling
+    is closed by now or not, and whether `i` is the only copy left or not. -/
+theorem late_handover_delivers_whole_source (wraps : Nat → Bool) (l : List Item) (n : Nat) (hn : 0 < n)
+    (evs : List (CEv (List Item))) (hne : ∀ e ∈ evs, e.isEnv = false) (y : CopySys (List Item))
+    (hr : (CopySys.init n l).run copyFactsGen listSrc evs = some y) (i k : Nat)
+    (hc : y.core.cursors[i]? = some (some k)) :
+    ∃ rest, takeOver lateFactsGen FactsC08.eofByIdentity wraps copyFactsGen y i = some rest ∧
+      rest = y.core.log.drop k ++ y.src ∧ itemsOf i y.outs ++ rest = l := by
+  have hv : lateFactsGen.childViaRecv = true := by decide
+  have linv : LInv l y :=
+    (show LInv l (CopySys.init n l) from ⟨by simp [CopySys.init], by simp [CopySys.init]⟩).run hne hr
+  rw [copyFacts_good] at hr ⊢
+  have inv := (CInv.init n hn l).run hn listSrc hr
+  have hk := inv.cur i k hc
+  have hd := drainChild_spec goodCopy rfl (listedFor y.core i + y.src.length + 1) y i k hc hk.1
+    (fun he => linv.done (inv.eofMem.mp he)) (by simp [listedFor, hc])
+  refine ⟨y.core.log.drop k ++ y.src, ?_, rfl, ?_⟩
+  · simp only [takeOver, hv, if_true, hd, Option.map_some, forwarder_forwards_every_element]
+  · rw [hk.2, ← List.append_assoc, List.take_append_drop, ← inv.pulledLog]
+    exact linv.split
+
+/-- non-vacuity, and the situation itself: five items, copy 0 reads two of them and is closed, copy
+    1 — the only one left, nothing read — is handed over: it is owed all five (two from the list) -/
+example : ((CopySys.init 2 [⟨1, 0⟩, ⟨2, 0⟩, ⟨3, 0⟩, ⟨4, 0⟩, ⟨5, 0⟩]).run copyFactsGen listSrc
+      [.recv 0, .recv 0, .close 0]).bind (fun y =>
+        (takeOver lateFactsGen FactsC08.eofByIdentity (fun _ => true) copyFactsGen y 1).map fun r =>
+          (y.core.cursors, listedFor y.core 1, y.src, r))
+    = some ([none, some 0], 2, [⟨3, 0⟩, ⟨4, 0⟩, ⟨5, 0⟩], [⟨1, 0⟩, ⟨2, 0⟩, ⟨3, 0⟩, ⟨4, 0⟩, ⟨5, 0⟩]) := by decide
+
+/-- **late_array_handover.** An array reader that has delivered `index` items and is then handed
+    to `MergeStreamReaders`: delivered before ++ taken over = the array (each item once). -/
+theorem late_array_handover (arr : List Item) (index : Nat) :
+    arr.take index ++ arrTakeOver lateFactsGen arr index = arr := by
+  have h : lateFactsGen.arrayFromIndex = true := by decide
+  simp [arrTakeOver, h]
+
+/-- the network model the oracle runs says the same on this situation: after the late merge
+    (copy 3 of pipe 0 merged with pipe 4; sibling 2 had read items 1 and 2 and was closed) the
+    merged reader 6 delivers item 1 first … -/
+example : (runOps factsGen 60 [{}] 0
+    [.pipe 5, .send 0 ⟨1, 0⟩ false, .send 0 ⟨2, 0⟩ false, .send 0 ⟨3, 0⟩ false, .copy 0 2,
+     .recv 2 (.item ⟨1, 0⟩), .recv 2 (.item ⟨2, 0⟩), .close 2, .pipe 1, .merge [3, 4],
+     .recv 6 (.item ⟨1, 0⟩), .recv 6 (.item ⟨2, 0⟩), .recv 6 (.item ⟨3, 0⟩)]).toOption.isSome = true := by decide
+
+/-- … and a delivery that starts behind the items the closed sibling had read is not a behaviour -/
+example : (runOps factsGen 60 [{}] 0
+    [.pipe 5, .send 0 ⟨1, 0⟩ false, .send 0 ⟨2, 0⟩ false, .send 0 ⟨3, 0⟩ false, .copy 0 2,
+     .recv 2 (.item ⟨1, 0⟩), .recv 2 (.item ⟨2, 0⟩), .close 2, .pipe 1, .merge [3, 4],
+     .recv 6 (.item ⟨3, 0⟩)]).toOption.isSome = false := by decide
+
 /-! ## non-vacuity: concrete non-trivial behaviours -/
 
 /-- a capacity-2 pipe: two sends, a receive, the third send, writer close, drain, EOF -/
@@ -736,5 +820,22 @@ theorem merge_wrong_table_loses_source :
     ((MergeSt.init [1, 1]).run [[], [(0, 0)], [(0, 1), (1, 1)]] 2
       [.send 1 ⟨7, 0⟩, .closeSend 0, .sel 0, .closeSend 1, .sel 0, .eof]).map
       (fun m => (m.eofOut, m.outs, m.srcs.map (·.buf))) = some (true, [], [[], [⟨7, 0⟩]]) := by decide
+
+/-- If `MergeStreamReaders` took the channel behind the copies instead of reading the copy through
+    its own receive path (say, because the copy is the only one still open), the items a sibling
+    had read ahead — which exist only in the shared list — would be lost: here 1 and 2. -/
+theorem handover_bypassing_cursor_loses_read_ahead :
+    ((CopySys.init 2 [⟨1, 0⟩, ⟨2, 0⟩, ⟨3, 0⟩, ⟨4, 0⟩, ⟨5, 0⟩]).run copyFactsGen listSrc
+      [.recv 0, .recv 0, .close 0]).bind (fun y =>
+        (takeOver { lateFactsGen with childViaRecv := false } FactsC08.eofByIdentity (fun _ => true) copyFactsGen y 1).map
+          fun r => (itemsOf 1 y.outs, r))
+    = some ([], [⟨3, 0⟩, ⟨4, 0⟩, ⟨5, 0⟩]) := by decide
+
+/-- If an array reader were merged as its whole array instead of `arr[index:]`, the items already
+    delivered would be delivered again. -/
+theorem array_handover_ignoring_index_repeats_items :
+    [⟨1, 0⟩, ⟨2, 0⟩, ⟨3, 0⟩].take 1 ++
+      arrTakeOver { lateFactsGen with arrayFromIndex := false } [⟨1, 0⟩, ⟨2, 0⟩, ⟨3, 0⟩] 1
+    = [(⟨1, 0⟩ : Item), ⟨1, 0⟩, ⟨2, 0⟩, ⟨3, 0⟩] := by decide
 
 end EinoV.C08
